@@ -261,7 +261,7 @@ fn arb_r() -> impl Strategy<Value = Option<R>> {
             proptest::option::weighted(0.3, 0usize..10),
             proptest::option::weighted(0.2, proptest::collection::vec(arb_s(), 0..3)),
         )
-            .prop_map(|(a, b, c, d, e)| R { min_inclusive: a, max_inclusive: b, min_length: c, max_length: d, enumeration: e, ..R::default() }),
+            .prop_map(|(a, b, c, d, e)| R { min_inclusive: a.map(i64::from), max_inclusive: b.map(i64::from), min_length: c, max_length: d, enumeration: e, ..R::default() }),
     )
 }
 
@@ -313,10 +313,17 @@ where
 }
 
 fn cmp_chk<B: CheckRestrictions, W: CheckRestrictions>(what: &str, b: &B, w: &W, r: &Option<R>, out: &mut Vec<Fail>) {
-    let rb = b.check_restrictions(r.as_ref().map(R::to_real)).is_ok();
-    let rw = w.check_restrictions(r.as_ref().map(R::to_real)).is_ok();
-    if rb != rw {
-        out.push(Fail { sig: format!("{what}:restriction-verdict-differs"), detail: format!("bare ok={rb} wrapped ok={rw} r={r:?}") });
+    // a short history of checks on the same values: without restrictions, with the generated set,
+    // without again, with the set again - the verdict of a check must not depend on earlier ones
+    for (k, with) in [false, true, false, true].into_iter().enumerate() {
+        let set = || if with { r.as_ref().map(R::to_real) } else { None };
+        let rb = b.check_restrictions(set()).is_ok();
+        let rw = w.check_restrictions(set()).is_ok();
+        if rb != rw {
+            let when = if k < 2 { "" } else { ":after-earlier-checks" };
+            out.push(Fail { sig: format!("{what}:restriction-verdict-differs{when}"), detail: format!("check #{k} (restrictions {}): bare ok={rb} wrapped ok={rw} r={r:?}", if with { "given" } else { "none" }) });
+            return;
+        }
     }
 }
 
@@ -441,7 +448,7 @@ pub fn run(tier: Tier) -> i32 {
         "C19",
         tier,
         "exploration",
-        "proptest-generated values of hand-written probe types (text-only, attributes, nested with Option/Vec members, restricted simple type with its own facets, flattened attribute group, self-referential node) used bare and wrapped in MultiRef at the root and as a field; compared: serialized bytes, Ok/Err + Debug of deserializing the serialized and damaged documents, check_restrictions verdict under generated restriction sets, Default, Debug, clone sharing. Non-trivial: a value with an optional-present or repeated nested member or a recursive child; distinct by Debug of the case.",
+        "proptest-generated values of hand-written probe types (text-only, attributes, nested with Option/Vec members, restricted simple type with its own facets, flattened attribute group, self-referential node) used bare and wrapped in MultiRef at the root and as a field; compared: serialized bytes, Ok/Err + Debug of deserializing the serialized and damaged documents, check_restrictions verdicts over a short history of checks on the same value (no restrictions, the generated set, none, the set again), Default, Debug, clone sharing. Non-trivial: a value with an optional-present or repeated nested member or a recursive child; distinct by Debug of the case.",
     );
     ev.assume("probe types are written by hand in the harness with yaserde derive; the bare twin is the oracle, so yaserde quirks cancel out");
     let wd = Watchdog::start("C19", 120);
